@@ -161,7 +161,7 @@ class Run:
 def gen_mkpool(rng, prof, R):
     size = rng.choice(prof["sizes"])
     # pool names: none, ordinary ones, and ones with characters that formatting code may trip over
-    name = rng.choice(["-", "-", "-", "pp", "qq", "50%", "a{0}b", "%s"])
+    name = rng.choice(["-", "-", "-", "pp", "qq", "50%", "a{0}b", "%s", "''"])
     if rng.random() < prof["badpool"]:
         size = "-1"
     if rng.random() < prof["simple"]:
